@@ -14,12 +14,14 @@ import (
 func init() { Checks["C20"] = CheckC20 }
 
 // Bound constants (DESIGN section 4, C20): over every prefix of a history
-//   sum(alloc) <= sum(len(input) * (c20K + c20Kd*D(input))) + c20C * calls
+//
+//	sum(alloc) <= sum(len(input) * (c20K + c20Kd*D(input))) + c20C * calls
+//
 // D(input) = deepest nesting level at which a string containing a backslash occurs.
 const (
 	c20K  = 1024
 	c20Kd = 2
-	c20C  = 32 << 10
+	c20C  = 8 << 10
 )
 
 // C20 step encoding: Kind = function; the document is In when non-empty, otherwise built
@@ -263,6 +265,10 @@ type c20Runner struct {
 	calls  int
 	inLen  uint64
 	maxUse float64
+	// calibration aids: the largest allocation of a call on a tiny (<= 16 byte) input, and the
+	// largest bytes-allocated-per-input-byte of a call on a >= 4 KiB input
+	maxTinyCall   uint64
+	maxBigPerByte float64
 	// non-triviality bookkeeping
 	firstLen  int
 	laterLens []int
@@ -351,6 +357,14 @@ func (r *c20Runner) step(step *core.Case) error {
 			return nil // totality is C10's subject
 		}
 		r.alloc += after - before
+		if len(doc) <= 16 && r.calls > 0 && after-before > r.maxTinyCall {
+			r.maxTinyCall = after - before
+		}
+		if len(doc) >= 4096 {
+			if x := float64(after-before) / float64(len(doc)); x > r.maxBigPerByte {
+				r.maxBigPerByte = x
+			}
+		}
 		r.bound += perCall
 		r.calls++
 		r.inLen += uint64(len(doc))
